@@ -166,13 +166,17 @@ static void wl_object_add(struct ctx *c)
 }
 static void wl_array_ops(struct ctx *c)
 {
-	/* param = n*4 + op ; op 0 add, 1 put beyond end, 2 insert at 0, 3 put over existing */
-	int n = c->param / 4, op = c->param % 4, i, rc; struct json_object *a = json_object_new_array(), *v;
-	for (i = 0; i < n; i++) json_object_array_add(a, json_object_new_int(i));
+	/* param = n*8 + op ; op 0 add, 1 put beyond end, 2 insert at 0, 3 put over existing, 4 put over the LAST element of an array trimmed to exactly its length
+	 * (capacity == length: the replacing put asks for room), 5 the same through json_pointer_set */
+	int n = c->param / 8, op = c->param % 8, i, rc; struct json_object *a = json_object_new_array(), *v; char ptr[32];
+	for (i = 0; i < n; i++) json_object_array_add(a, json_object_new_string("old element, separately allocated........"));
+	if (op >= 4) json_object_array_shrink(a, 0);
 	v = json_object_new_string("new element");
 	keep(c, a);
+	snprintf(ptr, sizeof ptr, "/%d", n - 1);
 	ARM(c);
-	rc = op == 0 ? json_object_array_add(a, v) : op == 1 ? json_object_array_put_idx(a, (size_t)n + 5, v) : op == 2 ? json_object_array_insert_idx(a, 0, v) : json_object_array_put_idx(a, 0, v);
+	rc = op == 0 ? json_object_array_add(a, v) : op == 1 ? json_object_array_put_idx(a, (size_t)n + 5, v) : op == 2 ? json_object_array_insert_idx(a, 0, v) : op == 3 ? json_object_array_put_idx(a, 0, v)
+	   : op == 4 ? json_object_array_put_idx(a, (size_t)n - 1, v) : json_pointer_set(&a, ptr, v);
 	DISARM(c);
 	if (rc != 0) { c->failed = 1; check_keeps(c); if (json_object_put(v) != 1) bad(c, "failed-array-op-took-the-value"); }
 	else { free(c->keepdump[0].b); memset(&c->keepdump[0], 0, sizeof c->keepdump[0]); dump_node(&c->keepdump[0], a, 0); res_obj(c, a); }
@@ -512,7 +516,7 @@ static void build_table(void)
 	addw("tokener_new", wl_tokener_new, 0, "construct"); addw("tokener_new", wl_tokener_new, 3, "construct"); addw("tokener_new", wl_tokener_new, 1000, "construct");
 	for (i = 0; i < 10; i++) addw("construct", wl_construct, i, "construct");
 	{ static const int ms[] = {0, 1, 20, 21, 22, 23, 42, 43, 44, 45, 86, 87}; for (i = 0; i < 12; i++) addw("object_add", wl_object_add, ms[i], "add"); }
-	{ static const int ns[] = {0, 31, 32, 33, 63, 64, 65}; int j; for (i = 0; i < 7; i++) for (j = 0; j < 4; j++) if (!(ns[i] == 0 && j == 3)) addw("array_op", wl_array_ops, ns[i] * 4 + j, "add"); }
+	{ static const int ns[] = {0, 31, 32, 33, 63, 64, 65}; int j; for (i = 0; i < 7; i++) for (j = 0; j < 6; j++) if (!(ns[i] == 0 && j >= 3)) addw("array_op", wl_array_ops, ns[i] * 8 + j, "add"); }
 	for (i = 0; i < 6; i++) addw("set_string", wl_set_string, i, "setstring");
 	for (i = 0; i < NDOCS; i++) addw("deep_copy", wl_deep_copy, i, "copy");
 	addw("deep_copy_userdata", wl_userdata_copy, 0, "copy");
